@@ -19,6 +19,7 @@ import (
 	el "github.com/hashicorp/eventlogger"
 	"github.com/hashicorp/eventlogger/filters/encrypt"
 	wrapping "github.com/hashicorp/go-kms-wrapping/v2"
+	"github.com/hashicorp/go-kms-wrapping/v2/extras/multi"
 	"verifharness/hc"
 )
 
@@ -38,6 +39,7 @@ type COp struct {
 	TF    []TField  `json:"tf,omitempty"`    // event: the payload's filtered values carry THESE class tags (struct tags / PointerTags of a Taggable map field)
 	V     bool      `json:"v,omitempty"`     // rotpayload: a RotV handed over BY VALUE (RotateWrapper through value receivers)
 	DP    []string  `json:"dp,omitempty"`    // event: container paths from the payload root down to a tagged leaf struct each: tokens m (map), l (slice), s (struct), p (pointer to struct), e.g. "m.m.s"
+	Pool  []int     `json:"pool,omitempty"`  // the wrapper W is the ENCRYPTING key of a multi.PooledWrapper holding these keys as well (a pool of one: [W]); op "setenc": the pool the filter holds gets W as its encrypting wrapper, in place
 	Again bool      `json:"again,omitempty"` // event: the very payload object of the previous event is sent once more
 	Nil   bool      `json:"nil,omitempty"`   // rotate: a nil Option leads the list
 	Rep   bool      `json:"rep,omitempty"`   // rotate: every option is given twice, a decoy value first (the last one wins); WithWrapper(nil) where no wrapper is set
@@ -251,7 +253,7 @@ func execCB(c CCase, cd cands) cresult {
 	if len(ev.Data) == 0 {
 		ev.Data = []int{1, 1, 1, 1, 1}
 	}
-	f := &encrypt.Filter{Wrapper: cWrapper(c.Init.W), HmacSalt: poolBytes("salt", c.Init.S), HmacInfo: poolBytes("info", c.Init.I)}
+	f := &encrypt.Filter{Wrapper: wrapperOf(c.Init.W, c.Init.Pool), HmacSalt: poolBytes("salt", c.Init.S), HmacInfo: poolBytes("info", c.Init.I)}
 	p, pre, post := mkCBPayload(ev)
 	fired := false
 	cbHook = func() {
@@ -697,6 +699,9 @@ func candsOf(c CCase) cands {
 		}
 	}
 	addW(c.Init.W)
+	for _, m := range c.Init.Pool {
+		addW(m)
+	}
 	addSI(c.Init.S, c.Init.I)
 	ops := c.Ops
 	if c.CB {
@@ -705,6 +710,9 @@ func candsOf(c CCase) cands {
 	}
 	for _, o := range ops {
 		addW(o.W)
+		for _, m := range o.Pool {
+			addW(m)
+		}
 		addSI(o.S, o.I)
 		if o.EWI && o.EvID > 0 && canonEv(o.EvID) == o.EvID && !seenE[o.EvID] {
 			seenE[o.EvID] = true
@@ -816,10 +824,31 @@ func hmacFramedCached(k keyCand, si, ii int, data []byte) string {
 	return "hmac-sha256:" + base64.RawURLEncoding.EncodeToString(m.Sum(nil))
 }
 
+// the wrapper KIND: a plain AEAD wrapper, or a pooled wrapper (extras/multi) whose encrypting key is wrapper w and which holds
+// the other keys for decryption only - the key in force is the pool's encrypting key, wherever its key id sorts among the others
+func wrapperOf(w int, pool []int) wrapping.Wrapper {
+	if w <= 0 || len(pool) == 0 {
+		return cWrapper(w)
+	}
+	ctx := context.Background()
+	pw, err := multi.NewPooledWrapper(ctx, cWrapper(w))
+	if err != nil {
+		panic(err)
+	}
+	for _, m := range pool {
+		if m != w && m > 0 {
+			if _, err := pw.AddWrapper(ctx, cWrapper(m)); err != nil {
+				panic(err)
+			}
+		}
+	}
+	return pw
+}
+
 func rotOpts(o COp) []encrypt.Option {
 	var opts []encrypt.Option
 	if o.W > 0 {
-		opts = append(opts, encrypt.WithWrapper(cWrapper(o.W)))
+		opts = append(opts, encrypt.WithWrapper(wrapperOf(o.W, o.Pool)))
 	}
 	if o.S >= 0 {
 		opts = append(opts, encrypt.WithSalt(poolBytes("salt", o.S)))
@@ -1007,9 +1036,9 @@ func execCrypto(c CCase) cresult {
 	origSalt, origInfo := poolBytes("salt", c.Init.S), poolBytes("info", c.Init.I)
 	mk := func() *encrypt.Filter {
 		if c.ViaRotate {
-			return &encrypt.Filter{Wrapper: cWrapper(c.Init.W)} // salt / info arrive with the first operations (rotate, Orig)
+			return &encrypt.Filter{Wrapper: wrapperOf(c.Init.W, c.Init.Pool)} // salt / info arrive with the first operations (rotate, Orig)
 		}
-		return &encrypt.Filter{Wrapper: cWrapper(c.Init.W), HmacSalt: origSalt, HmacInfo: origInfo}
+		return &encrypt.Filter{Wrapper: wrapperOf(c.Init.W, c.Init.Pool), HmacSalt: origSalt, HmacInfo: origInfo}
 	}
 	filters := []*encrypt.Filter{mk()}
 	if c.Alias {
@@ -1093,7 +1122,7 @@ func execCrypto(c CCase) cresult {
 				rotated = true
 			case "rotpayload":
 				opLit = fmt.Sprintf("ORotPayload N %s %s %s", optKeyLit(o.W), optBstrLit(o.S), optBstrLit(o.I))
-				rp := &Rot{W: cWrapper(o.W), Salt: poolBytes("salt", o.S), Info: poolBytes("info", o.I)}
+				rp := &Rot{W: wrapperOf(o.W, o.Pool), Salt: poolBytes("salt", o.S), Info: poolBytes("info", o.I)}
 				var rpl interface{} = rp
 				if o.V {
 					rpl = RotV{W: rp.W, Salt: rp.Salt, Info: rp.Info}
@@ -1120,12 +1149,22 @@ func execCrypto(c CCase) cresult {
 				if o.K == "reopen" && f.Reopen() != nil || o.K == "type" && f.Type() != el.NodeTypeFilter {
 					obs = "CoErr"
 				}
+			case "setenc":
+				// the pooled wrapper the filter holds gets another encrypting key IN PLACE (no method of the filter is called): as far
+				// as the key in force goes, a rotation of the wrapper - when the pool accepts it (a key id it holds already is refused)
+				opLit, obs = "ORotate N None None None", "CoNone"
+				if pw, ok := f.Wrapper.(*multi.PooledWrapper); ok && o.W > 0 {
+					if done, err := pw.SetEncryptingWrapper(ctx, cWrapper(o.W)); err == nil && done {
+						opLit = fmt.Sprintf("ORotate N %s None None", optKeyLit(o.W))
+						rotated = true
+					}
+				}
 			case "setfield":
 				// the exported fields assigned directly between two events (no event in flight): W 0 = left alone, S / I -2 = left
 				// alone, -1 = set to nil (the empty salt / info, as far as the key in force goes)
 				ws, ss, is := "None", "None", "None"
 				if o.W > 0 {
-					f.Wrapper, ws = cWrapper(o.W), optKeyLit(o.W)
+					f.Wrapper, ws = wrapperOf(o.W, o.Pool), optKeyLit(o.W)
 				}
 				if o.S >= -1 {
 					f.HmacSalt, ss = poolBytes("salt", o.S), "(Some "+bstrLit(o.S)+")"
@@ -1333,7 +1372,7 @@ func execRP(c CCase, cd cands) cresult {
 	var res cresult
 	ctx := context.Background()
 	cd.mru = nil
-	f := &encrypt.Filter{Wrapper: cWrapper(c.Init.W), HmacSalt: poolBytes("salt", c.Init.S), HmacInfo: poolBytes("info", c.Init.I)}
+	f := &encrypt.Filter{Wrapper: wrapperOf(c.Init.W, c.Init.Pool), HmacSalt: poolBytes("salt", c.Init.S), HmacInfo: poolBytes("info", c.Init.I)}
 	rot := c.Ops[0]
 	evs := c.Ops[1:]
 	type slot struct {
@@ -1792,6 +1831,44 @@ func deepGrid() []CCase {
 	return out
 }
 
+// the keys a pooled wrapper may hold (distinct, non-empty key ids): wrappers 1 - 4 ("w1" < "w2" < "w3" < "w4") and 8 - 15
+var poolable = []int{1, 2, 3, 4, 8, 9, 10, 11, 12, 13, 14, 15}
+
+// now and then the wrapper w is the encrypting key of a pool of 1 - 3 keys (its key id first, in the middle or last among them)
+func (g *gen) pool(w int) []int {
+	ok := false
+	for _, p := range poolable {
+		ok = ok || p == w
+	}
+	if !ok || !g.r.Chance(1, 3) {
+		return nil
+	}
+	out := []int{w}
+	for n := g.r.Intn(3); n > 0; n-- {
+		out = append(out, poolable[g.r.Intn(len(poolable))])
+	}
+	return out
+}
+
+// pools of one, two and three keys with the encrypting key first / in the middle / last in the order of the key ids, handed over
+// at construction, through Rotate(WithWrapper(pool)), through a rotation payload, assigned to the field, and changed in place
+// with SetEncryptingWrapper between events; events without and with wrapper info after each
+func poolGrid() []CCase {
+	all := []int{1, 1, 1, 1, 1}
+	ev := COp{K: "event", S: -1, I: -1, Data: all}
+	ewi := COp{K: "event", EWI: true, EvID: 1, S: -1, I: -1, Data: all}
+	var out []CCase
+	for _, p := range [][]int{{1}, {1, 2}, {2, 1}, {1, 2, 3}, {2, 1, 3}, {3, 1, 2}, {4, 8}, {8, 4, 15}} {
+		w := p[0]
+		out = append(out, CCase{Gen: "pooled-wrappers", Init: COp{W: w, Pool: p, S: 1, I: 1}, Ops: []COp{ev, ewi, {K: "setenc", W: 9}, ev, ewi, {K: "setenc", W: w}, ev}})
+		for _, route := range []string{"rotate", "rotpayload", "setfield"} {
+			out = append(out, CCase{Gen: "pooled-wrappers", Init: COp{W: 3, S: 1, I: 1}, Ops: []COp{ev, {K: route, W: w, Pool: p, S: -2 + map[string]int{"rotate": 1, "rotpayload": 1}[route], I: -2 + map[string]int{"rotate": 1, "rotpayload": 1}[route]},
+				ev, ewi, {K: "setenc", W: 10}, ev, ewi, {K: "rotate", W: 2, S: 2, I: -1}, ev}})
+		}
+	}
+	return out
+}
+
 // a rotation payload whose accessors start events on the same filter
 func (g *gen) rpCase() CCase {
 	r := g.r
@@ -1861,6 +1938,7 @@ func (g *gen) cryptoCase(n int) CCase {
 	if r.Chance(4, 5) && c.Init.W == 0 {
 		c.Init.W = 1 + r.Intn(nWrappers)
 	}
+	c.Init.Pool = g.pool(c.Init.W)
 	for i := 0; i < n; i++ {
 		switch x := r.Intn(10); {
 		case x < 2 && r.Chance(1, 4):
@@ -1871,9 +1949,14 @@ func (g *gen) cryptoCase(n int) CCase {
 			case 1:
 				c.Ops = append(c.Ops, COp{K: "type"})
 			default:
+				if r.Chance(1, 3) {
+					c.Ops = append(c.Ops, COp{K: "setenc", W: poolable[r.Intn(len(poolable))]})
+					break
+				}
 				o := COp{K: "setfield", S: -2, I: -2}
 				if r.Bool() {
 					o.W = 1 + r.Intn(nWrappers)
+					o.Pool = g.pool(o.W)
 				}
 				if r.Bool() {
 					o.S = comp()
@@ -1884,9 +1967,11 @@ func (g *gen) cryptoCase(n int) CCase {
 				c.Ops = append(c.Ops, o)
 			}
 		case x < 2:
-			c.Ops = append(c.Ops, COp{K: "rotate", W: r.Intn(nWrappers + 1), S: comp(), I: comp(), Nil: r.Chance(1, 5), Rep: r.Chance(1, 5)})
+			w := r.Intn(nWrappers + 1)
+			c.Ops = append(c.Ops, COp{K: "rotate", W: w, Pool: g.pool(w), S: comp(), I: comp(), Nil: r.Chance(1, 5), Rep: r.Chance(1, 5)})
 		case x < 4:
-			c.Ops = append(c.Ops, COp{K: "rotpayload", W: r.Intn(nWrappers + 1), S: comp(), I: comp(), V: r.Chance(1, 4)})
+			w := r.Intn(nWrappers + 1)
+			c.Ops = append(c.Ops, COp{K: "rotpayload", W: w, Pool: g.pool(w), S: comp(), I: comp(), V: r.Chance(1, 4)})
 		default:
 			o := COp{K: "event", S: -1, I: -1, Data: []int{pick(), pick(), pick(), pick(), pick()}}
 			if r.Chance(1, 7) {
@@ -2025,6 +2110,7 @@ func cryptoSpecials() []CCase {
 	out = append(out, rpGrid()...)
 	out = append(out, taggedGrid()...)
 	out = append(out, deepGrid()...)
+	out = append(out, poolGrid()...)
 	// the length alphabet: salt and info (on the filter through Rotate and through a rotation payload, and on the event), event id
 	// and key id of 1, 63, 64, 65, 127, 128, 129 and 1100 bytes; consecutive values share every byte of the shorter one, so each
 	// rotation from one to the next must change the digests of the same data
@@ -2110,6 +2196,9 @@ func mainCrypto(out, prefix string, perShard, n int, corpus string, concOnly boo
 				if o.Ov != [3]string{} {
 					stats["op:event-under-overrides"]++
 				}
+			}
+			if len(o.Pool) > 0 || o.K == "setenc" {
+				stats["op:pooled-wrapper"]++
 			}
 			if o.Nil || o.Rep {
 				stats["op:rotate-nil-or-repeated-options"]++
